@@ -28,13 +28,20 @@ class Reporter:
         self.ev = evidence
         self.known = {f["signature"]: f for f in load(pid)}
         self.seen_known = {}
-        self.new = []
+        self.new = {}
 
-    def violation(self, signature, detail, replay_obj):
+    def violation(self, signature, detail, replay_obj, size=0):
+        """size: smaller = simpler example (kept per signature)"""
         if signature in self.known:
             self.seen_known.setdefault(signature, detail)
             return False
-        self.new.append((signature, detail, replay_obj))
+        cur = self.new.get(signature)
+        if cur is None:
+            self.new[signature] = [1, size, detail, replay_obj]
+        else:
+            cur[0] += 1
+            if size < cur[1]:
+                cur[1:] = [size, detail, replay_obj]
         return True
 
     def finish(self):
@@ -47,14 +54,16 @@ class Reporter:
         if self.new:
             rdir = VERIF / "evidence" / "replay"
             rdir.mkdir(parents=True, exist_ok=True)
-            for i, (sig, detail, obj) in enumerate(self.new[:20]):
+            for i, (sig, (cnt, _, detail, obj)) in enumerate(
+                    sorted(self.new.items())):
                 p = rdir / ("%s_%d.json" % (self.pid, i))
                 p.write_text(json.dumps(
                     {"property": self.pid, "signature": sig,
-                     "detail": detail, "replay": obj}, indent=1,
-                    default=str))
+                     "detail": detail, "occurrences": cnt, "replay": obj},
+                    indent=1, default=str))
                 print("VIOLATION property=%s replay=%s" % (self.pid, p))
-                print("  signature=%s detail=%s" % (sig, str(detail)[:600]))
+                print("  signature=[%s] occurrences=%d detail=%s" % (
+                    sig, cnt, str(detail)[:600]))
             rc = 1
         self.ev.write()
         return rc
